@@ -134,6 +134,9 @@ def run_tlc_replay(run, name, module, cfg_kwargs, prop, workers=4, threads=8, ti
         raise ToolError("%s: harness produced no summary (rc=%s): %s" % (name, p2.returncode, err.decode()[-2000:]))
     if summ["notes"].get("garbled_replay_lines"):
         raise ToolError("%s: TLC emitted garbled (byte-serialised) strings" % name)
+    if summ["notes"].get("hang_watchdog"):
+        # the harness ended the pipeline because the code under test hung: TLC was cut off, that is not a tool error
+        tlc["error"] = None
     if tlc["error"]:
         raise ToolError("%s: TLC error: %s" % (name, tlc["error"]))
     if tlc["violated"]:
@@ -193,7 +196,10 @@ def run_record_validate(run, name, driver, trace_module, prop, site, rounds, sha
         summ["compared"] += r["consumed"]
         states += r["states"]; trans += r["transitions"]
         lines = open(r["trace"], encoding="utf-8").read().split("\n")
-        rounds_n = sum(1 for l in lines if l and (('"ev":"reset"' in l) == (unit == "reset")))
+        if unit == "event":
+            rounds_n = sum(1 for l in lines if l and '"ev":"reset"' not in l and '"ev":"noise"' not in l)
+        else:
+            rounds_n = sum(1 for l in lines if '"ev":"%s"' % unit in l)
         summ["behaviours"] += rounds_n
         summ["nontrivial"] += rounds_n
         if not summ["samples"] and len(lines) > 3:
@@ -202,7 +208,7 @@ def run_record_validate(run, name, driver, trace_module, prop, site, rounds, sha
             k = r["consumed"] + 1          # 1-based line that was not accepted
             # cut the replay at the enclosing round
             start = k - 1
-            while unit == "reset" and start > 0 and '"ev":"reset"' not in lines[start]:
+            while unit != "event" and start > 0 and ('"ev":"%s"' % unit) not in lines[start]:
                 start -= 1
             os.makedirs(run.replay_dir, exist_ok=True)
             rp = os.path.join(run.replay_dir, "%s-trace-%d.ndjson" % (name, len(summ["violations"])))
@@ -281,6 +287,10 @@ def match_known(pid, viol, known):
     its explicit predicate (regular expressions over the violation's description / case)."""
     for k in known:
         if k.get("status") != "known" or k["property"] != pid:
+            continue
+        # entries that the trace specifications accept by a named disjunct (TRACE-KNOWN) carry no predicate here and
+        # must never swallow a violation; an entry without an explicit predicate matches nothing
+        if not (k.get("what_re") or k.get("case_re")):
             continue
         if k.get("site") and k["site"] != viol.get("site"):
             continue
